@@ -123,7 +123,7 @@ def run(ctx):
                   "updated, created and deleted COB refs all lead to a cache refresh (%s)" % sorted(kinds), rules.where(cc), fn=cc)
         who = [(fn, bb, None) for fn, bb in db.call_sites(r"worker::fetch::cache_cobs$")]
         ctx.check("req:cache_cobs:called", len(who) >= 1, "cache_cobs is called after a fetch (%d sites)" % len(who))
-    ctx.floor("pair:sites", n, 7, "write-through sites")
+    ctx.floor("pair:sites", n, 5, "write-through sites")
 
     # SIB
     for tr, mod in (("radicle::cob::patch::cache::Patches", "patch"), ("radicle::cob::issue::cache::Issues", "issue")):
@@ -140,7 +140,7 @@ def run(ctx):
                 cnt += 1
                 ctx.check("sib:%s:%s" % (mod, m), d["reader"] == d["writer"] and len(d["reader"]) == 1 and d["reader"][0].endswith("::" + m),
                           "reader and writer cache answer %s::%s with the same query (%s / %s)" % (mod, m, d["reader"], d["writer"]))
-        ctx.floor("sib:%s" % mod, cnt, 4, "query methods implemented by both reader and writer caches")
+        ctx.floor("sib:%s" % mod, cnt, 3, "query methods implemented by both reader and writer caches")
 
     # SQL
     m = 0
@@ -215,7 +215,7 @@ def run(ctx):
                 ctx.check(key + ":B7:%s" % path, path == "$.state.status" and tag_ok and fld_ok,
                           "status queries use `$.state.status`, which is where Serialize writes the State tag (tag=%s field=%s)" % (tag_ok, fld_ok),
                           rules.where(fn, bb), fn=fn)
-    ctx.floor("sql:cache", m, 5, "JSON-path uses in the cache queries")
+    ctx.floor("sql:cache", m, 3, "JSON-path uses in the cache queries")
 
     # granularity of the status filter: the direct (uncached) implementation compares the filter with `==`; if the filter
     # type carries data in a variant (State::Closed { reason }), a cached query that compares only the status tag returns
